@@ -119,7 +119,7 @@ class Ctx:
             raise MachineryError("design-level model %s/%s violates %s:\n%s" % (module, cfg, r.violated, r.raw_tail[-3000:]))
         return r
 
-    def validate(self, module, cfg, events, env=None, timeout=900, label=None):
+    def validate(self, module, cfg, events, env=None, timeout=900, label=None, nreal=None):
         """Code -> spec: validate a batch of recorded events (one trace each) with the trace spec.
         Returns the list of verdict strings (index-aligned with events)."""
         if not events:
@@ -136,7 +136,12 @@ class Ctx:
 
         def sink(s):
             if isinstance(s, str) and s.startswith("D "):
-                self.drifts.append(s[2:])
+                try:
+                    t = int(s.split(" ", 2)[1])
+                except ValueError:
+                    t = 0
+                if nreal is None or t <= nreal:  # notes about negative controls are not notes about the code
+                    self.drifts.append(s[2:])
             elif isinstance(s, str) and s.startswith("V "):
                 parts = s.split(" ", 2)
                 verdicts[int(parts[1]) - 1] = parts[2] if len(parts) > 2 else "?"
